@@ -113,13 +113,24 @@ structure Server where
   orderSeed : Nat := 0                      -- order in which the share groups are visited
 deriving Repr
 
+/-- a packet the broker writes, structurally (rendered to the harness's projection by `WPk.render`) -/
+inductive WPk where
+  | connack (ver : Nat) (sp : Bool) (code : Nat) (rm : Nat) (maxQos : Nat) (sei : Option Nat)
+  | publish (ver : Nat) (m : Msg) (meSet : Bool)
+  | ack (ver t id rc : Nat)
+  | suback (id : Nat) (rcs : List Nat)
+  | unsuback (ver id : Nat) (rcs : List Nat)
+  | pingresp
+  | disconnect (ver code : Nat)
+deriving Repr, DecidableEq
+
 /-- what one step writes / does -/
 inductive Out where
-  | wrote (conn : Nat) (pk : String)
+  | wrote (conn : Nat) (pk : WPk)
   | closed (conn : Nat)
   | event (e : String)
   | inline (id : Nat) (topic payload : Str)
-deriving Repr
+deriving Repr, DecidableEq
 
 def hex2 (n : Nat) : String :=
   let d (k : Nat) : Char := if k < 10 then Char.ofNat (k + 48) else Char.ofNat (k - 10 + 97)
@@ -203,6 +214,32 @@ def ackName (t : Nat) : String :=
 def renderAck (t id rc : Nat) (ver : Nat) : String :=
   s!"{ackName t}:id{id}:rc{hex2 (if ver == 5 then rc else 0)}"
 
+def v3code (code : Nat) : Nat :=
+  if code == 0x84 then 1 else if code == 0x85 then 2 else if code == 0x88 then 3
+  else if code == 0x86 then 5 else code
+
+def WPk.render : WPk → String
+  | .connack ver sp code rm maxQos seiOut =>
+    if ver == 5 then
+      let fail := code ≥ 0x80
+      let mq := if !fail && maxQos < 2 then toString maxQos else "-"
+      let sei := match seiOut with | some v => toString v | none => "-"
+      s!"CONNACK:sp{b01 (sp && !fail)}:rc{hex2 code}:rm{rm}:mq{mq}:aci0:sei{if fail then "-" else sei}:ska-:rs{b01 fail}"
+    else
+      -- MQTT 3: codes outside V5CodesToV3 are sent raw; the independent decoder rejects return codes > 5
+      -- (known finding F23a)
+      let rc := if code ≥ 0x80 then v3code code else code
+      if rc > 5 then s!"!bad(connack-return-code-{rc}-not-defined-for-MQTT-3)"
+      else s!"CONNACK:sp{b01 (sp && code < 0x80)}:rc{hex2 rc}"
+  | .publish ver m meSet => renderPublish ver m meSet
+  | .ack ver t id rc => renderAck t id rc ver
+  | .suback id rcs => s!"SUBACK:id{id}:rcs={if rcs.isEmpty then "-" else String.join (rcs.map hex2)}"
+  | .unsuback ver id rcs =>
+    s!"UNSUBACK:id{id}:rcs={if ver == 5 then (if rcs.isEmpty then "-" else String.join (rcs.map hex2)) else "-"}"
+  | .pingresp => "PINGRESP"
+  | .disconnect ver code =>
+    if ver == 5 then s!"DISCONNECT:rc{hex2 code}" else "!bad(DISCONNECT-sent-to-an-MQTT-3-client)"
+
 /-- `WritePacket` of a message to client object `i` (direct write or via the queue — sequentially the
     same): nothing if the client is closed. PUBLISH: the expiry interval is (re)computed when
     `Expiry > 0`. -/
@@ -211,8 +248,8 @@ def writeMsg (s : Server) (i : Nat) (m : Msg) : List Out :=
   if !c.isOpen || c.inline || c.peerGone then [] else
   if m.type == 3 then
     let meSet := m.expiry > 0 || m.msgExpiry > 0
-    [.wrote c.conn (renderPublish c.ver m meSet)]
-  else [.wrote c.conn (renderAck m.type m.id m.reasonCode c.ver)]
+    [.wrote c.conn (.publish c.ver m meSet)]
+  else [.wrote c.conn (.ack c.ver m.type m.id m.reasonCode)]
 
 /-- `Client.Stop` -/
 def stopClient (s : Server) (i : Nat) : Server × List Out :=
@@ -224,10 +261,8 @@ def stopClient (s : Server) (i : Nat) : Server × List Out :=
 def disconnectClient (s : Server) (i : Nat) (code : Nat) : Server × List Out :=
   let c := getObj s i
   -- an MQTT 3 client is written a DISCONNECT packet too (E0 00), which MQTT 3 does not define for
-  -- servers: the independent decoder renders it as malformed (known finding F23b)
-  let w := if c.isOpen && !c.inline then
-      [Out.wrote c.conn (if c.ver == 5 then s!"DISCONNECT:rc{hex2 code}" else "!bad(DISCONNECT-sent-to-an-MQTT-3-client)")]
-    else []
+  -- servers (known finding F23b)
+  let w := if c.isOpen && !c.inline then [Out.wrote c.conn (.disconnect c.ver code)] else []
   let (s, o) := stopClient s i
   (s, w ++ o)
 
@@ -260,18 +295,37 @@ def aliasOutSet (c : Client) (topic : Str) : Client × Nat × Bool :=
     else ({ c with aliasOut := c.aliasOut ++ [(topic, c.aliasCursor + 1)], aliasCursor := c.aliasCursor + 1 },
           c.aliasCursor + 1, false)
 
-/-- `publishToClient(cl, sub, pk)` -/
-def publishToClient (s : Server) (i : Nat) (sub : Sub) (fwdRetained : Bool) (pk : Msg) : Server × List Out :=
+/-- the part of `publishToClient` that shapes the outgoing copy: retain flag, subscription
+    identifiers and QoS (before alias and packet id are assigned) -/
+def shapeRetain (ver : Nat) (sub : Sub) (fwdRetained : Bool) (retain : Bool) : Bool :=
+  if !fwdRetained && ((ver == 5 && !sub.rap) || ver < 5) then false else retain
+
+def shapeSubIds (sub : Sub) : List Nat :=
+  match sub.idents with
+  | some ids => if ids.length > 0 then (ids.map (·.2)).mergeSort else []
+  | none => []
+
+def shapeQos (caps : Caps) (sub : Sub) (qos : Nat) : Nat :=
+  let q := if qos > sub.qos then sub.qos else qos
+  if q > caps.maximumQos then caps.maximumQos else q
+
+def shapeOut (caps : Caps) (ver : Nat) (sub : Sub) (fwdRetained : Bool) (pk : Msg) : Msg :=
+  { pk with dup := false, id := 0, alias := 0,                 -- pk.Copy(false)
+            retain := shapeRetain ver sub fwdRetained pk.retain,
+            subIds := shapeSubIds sub,
+            qos := shapeQos caps sub pk.qos }
+
+/-- the reason code `processSubscribe` grants to an acceptable filter -/
+def grantedQos (caps : Caps) (reqQos : Nat) : Nat := if reqQos > caps.maximumQos then caps.maximumQos else reqQos
+
+/-- `clearExpiredClients`: is this session due for removal at virtual time `dt`? -/
+def sessionDue (caps : Caps) (c : Client) (dt : Int) : Bool :=
+  c.stopped && (NOW + (if c.ver == 5 && c.fsei then c.sei else caps.maxSessionExpiry) < dt)
+
+/-- the body of `publishToClient` after its two gates -/
+def publishToClientCore (s : Server) (i : Nat) (sub : Sub) (fwdRetained : Bool) (pk : Msg) : Server × List Out :=
   let c := getObj s i
-  if sub.noLocal && pk.origin == c.id then (s, []) else
-  if !aclOk s c.id pk.topic false then (s, []) else
-  let out : Msg := { pk with dup := false, id := 0, alias := 0, subIds := [] }   -- pk.Copy(false)
-  let out := if !fwdRetained && ((c.ver == 5 && !sub.rap) || c.ver < 5) then { out with retain := false } else out
-  let out := match sub.idents with
-    | some ids => if ids.length > 0 then { out with subIds := (ids.map (·.2)).mergeSort } else out
-    | none => out
-  let out := if out.qos > sub.qos then { out with qos := sub.qos } else out
-  let out := if out.qos > s.caps.maximumQos then { out with qos := s.caps.maximumQos } else out
+  let out := shapeOut s.caps c.ver sub fwdRetained pk
   let (c, out) := if c.tam > 0 then
       let (c', a, existed) := aliasOutSet c pk.topic
       if a > 0 then (c', { out with alias := a, topic := if existed then [] else out.topic }) else (c', out)
@@ -301,6 +355,12 @@ def publishToClient (s : Server) (i : Nat) (sub : Sub) (fwdRetained : Bool) (pk 
   else if !c.isOpen then (s, [])
   else (s, writeMsg s i out)
 
+/-- `publishToClient(cl, sub, pk)`: the No Local and read-permission gates, then the delivery -/
+def publishToClient (s : Server) (i : Nat) (sub : Sub) (fwdRetained : Bool) (pk : Msg) : Server × List Out :=
+  if sub.noLocal && pk.origin == (getObj s i).id then (s, [])
+  else if !aclOk s (getObj s i).id pk.topic false then (s, [])
+  else publishToClientCore s i sub fwdRetained pk
+
 /-- `retainMessage(cl, pk)` -/
 def retainMsg (s : Server) (pk : Msg) : Server :=
   if s.caps.retainAvailable == 0 || pk.ignore then s else
@@ -309,18 +369,18 @@ def retainMsg (s : Server) (pk : Msg) : Server :=
             else assocDel s.rmsgs pk.topic
   { s with topics := r.1, rmsgs := rm, info := { s.info with retained := rm.length } }
 
-/-- `Subscribers.SelectShared` + `MergeSharedSelected`: Go picks an arbitrary member per group map; the
-    model picks the first in its list order and the harness/driver restrict shared groups to one
-    member per (filter) when outputs are compared (DESIGN.md §7 C06). -/
+/-- one iteration of `SelectShared`: pick a member of this candidate entry (the `seed` resolves Go's
+    map order) and merge it into the selection -/
+def selectOne (acc : List (Str × Sub) × Nat) (g : Str × List (Str × Sub)) : List (Str × Sub) × Nat :=
+  match g.2[acc.2 % 3 % g.2.length]? with
+  | none => (acc.1, acc.2 / 3)
+  | some cs =>
+    match assocGet acc.1 cs.1 with
+    | none => (assocSet acc.1 cs.1 (cs.2.merge cs.2), acc.2 / 3)
+    | some cls => (assocSet acc.1 cs.1 (cls.merge cs.2), acc.2 / 3)
+
 def selectShared (pickSeed : Nat) (r : Subscribers) : List (Str × Sub) :=
-  (r.shared.foldl (fun (acc : List (Str × Sub) × Nat) g =>
-    let (sel, seed) := acc
-    match g.2[seed % 3 % g.2.length]? with
-    | none => (sel, seed / 3)
-    | some (client, sub) =>
-      match assocGet sel client with
-      | none => (assocSet sel client (sub.merge sub), seed / 3)
-      | some cls => (assocSet sel client (cls.merge sub), seed / 3)) ([], pickSeed)).1
+  (r.shared.foldl selectOne ([], pickSeed)).1
 
 def mergeSharedSelected (subs sel : List (Str × Sub)) : List (Str × Sub) :=
   sel.foldl (fun m (cs : Str × Sub) =>
@@ -351,6 +411,7 @@ def publishToSubscribers (s : Server) (pk : Msg) : Server × List Out :=
 def publishRetainedToClient (s : Server) (i : Nat) (sub : Sub) (existed : Bool) : Server × List Out :=
   if isSharedFilter sub.filter then (s, []) else
   if (sub.rh == 1 && existed) || sub.rh == 2 then (s, []) else
+  let sub := if sub.ident > 0 && (sub.idents.getD []).isEmpty then { sub with idents := some [(sub.filter, sub.ident)] } else sub
   (permuteBy s.permSeed (messages s.topics sub.filter)).foldl (fun (acc : Server × List Out) (r : Retained) =>
     match assocGet acc.1.rmsgs r.topic with
     | none => acc
@@ -545,13 +606,11 @@ def processSubscribe (s : Server) (i : Nat) (id subId : Nat) (filters : List Sub
       let rr := subscribe s.topics c.id sub
       let s := { s with topics := rr.1, info := if rr.2 then { s.info with subs := s.info.subs + 1 } else s.info }
       let s := modObj s i (fun c => { c with subs := assocSet c.subs sub.filter sub })
-      let q := if sub.qos > s.caps.maximumQos then s.caps.maximumQos else sub.qos
-      (s, rcs ++ [fin q], exs ++ [!rr.2])) (s, [], [])
+      (s, rcs ++ [fin (grantedQos s.caps sub.qos)], exs ++ [!rr.2])) (s, [], [])
   let (s, rcs, exs) := r
   let c := getObj s i
   if !c.isOpen then (s, [], some 0) else
-  let rcHex := if rcs.isEmpty then "-" else String.join (rcs.map hex2)
-  let o1 := [Out.wrote c.conn s!"SUBACK:id{id}:rcs={rcHex}"]
+  let o1 := [Out.wrote c.conn (.suback id rcs)]
   -- retained messages for the accepted filters
   let z := (filters.zip (rcs.zip exs)).foldl (fun (acc : Server × List Out) (x : Sub × Nat × Bool) =>
     if x.2.1 ≥ 0x80 then acc else
@@ -574,8 +633,7 @@ def processUnsubscribe (s : Server) (i : Nat) (id : Nat) (filters : List Str) : 
   let (s, rcs) := r
   let c := getObj s i
   if !c.isOpen then (s, [], some 0) else
-  let rcHex := if c.ver == 5 then (if rcs.isEmpty then "-" else String.join (rcs.map hex2)) else "-"
-  (s, [.wrote c.conn s!"UNSUBACK:id{id}:rcs={rcHex}"], none)
+  (s, [.wrote c.conn (.unsuback c.ver id rcs)], none)
 
 /-- `processDisconnect` -/
 def processDisconnect (s : Server) (i : Nat) (rc : Nat) (sei : Option Nat) : HRes :=
@@ -621,7 +679,7 @@ def receivePacket (s : Server) (i : Nat) (pk : InPk) : HRes :=
     | .pubrec id rc => processPubrec s i id rc
     | .pubrel id rc => processPubrel s i id rc
     | .pubcomp id _ => processPubcomp s i id
-    | .pingreq => if c.isOpen then (s, [.wrote c.conn "PINGRESP"], none) else (s, [], some 0)
+    | .pingreq => if c.isOpen then (s, [.wrote c.conn .pingresp], none) else (s, [], some 0)
     | .disconnect rc sei => processDisconnect s i rc sei
   match r with
   | (s, o, none) =>
@@ -669,7 +727,7 @@ def recvOn (s : Server) (conn : Nat) (pk : InPk) (barrier : Bool) : Server × Li
         (s, o ++ o2)
       else if barrier then
         let (s, o2, e2) := receivePacket s i .pingreq
-        let o2 := o2.filter (fun x => match x with | .wrote _ "PINGRESP" => false | _ => true)
+        let o2 := o2.filter (fun x => match x with | .wrote _ .pingresp => false | _ => true)
         match e2 with
         | some _ => let (s, o3) := detach s i true; (s, o ++ o2 ++ o3)
         | none => (s, o ++ o2)
@@ -687,26 +745,11 @@ structure Connect where
   will : Option Will := none
 deriving Repr
 
-def v3code (code : Nat) : Nat :=
-  if code == 0x84 then 1 else if code == 0x85 then 2 else if code == 0x88 then 3
-  else if code == 0x86 then 5 else code
+def mkConnack (s : Server) (c : Client) (sp : Bool) (code : Nat) (seiOut : Option Nat) : WPk :=
+  .connack c.ver sp code s.caps.receiveMaximum s.caps.maximumQos seiOut
 
-def renderConnack (s : Server) (c : Client) (sp : Bool) (code : Nat) (seiOut : Option Nat) : String :=
-  if c.ver == 5 then
-    let fail := code ≥ 0x80
-    let mq := if !fail && s.caps.maximumQos < 2 then toString s.caps.maximumQos else "-"
-    let sei := match seiOut with | some v => toString v | none => "-"
-    s!"CONNACK:sp{b01 (sp && !fail)}:rc{hex2 code}:rm{s.caps.receiveMaximum}:mq{mq}:aci0:sei{if fail then "-" else sei}:ska-:rs{b01 fail}"
-  else
-    -- MQTT 3: codes outside V5CodesToV3 are sent raw; the independent decoder rejects return codes > 5
-    -- (known finding F23a)
-    let rc := if code ≥ 0x80 then v3code code else code
-    if rc > 5 then s!"!bad(connack-return-code-{rc}-not-defined-for-MQTT-3)"
-    else s!"CONNACK:sp{b01 (sp && code < 0x80)}:rc{hex2 rc}"
-
-/-- `attachClient` up to the read loop -/
-def connect (s : Server) (conn : Nat) (k : Connect) : Server × List Out :=
-  -- ParseConnect
+/-- `ParseConnect`: the client object a CONNECT describes -/
+def parseConnect (s : Server) (conn : Nat) (k : Connect) : Client :=
   let rmProp := k.rm.getD 0
   let rmProp := if rmProp > s.caps.maximumInflight then s.caps.maximumInflight else rmProp
   let will : Will := match k.will with
@@ -716,99 +759,125 @@ def connect (s : Server) (conn : Nat) (k : Connect) : Server × List Out :=
         | none => w.delay
       { w with flag := true, delay := d }
     | none => {}
-  let c : Client := { conn := conn, id := k.id, ver := k.ver, clean := k.clean, sei := k.sei.getD 0, fsei := k.sei.isSome,
-                      recvMaxProp := rmProp, tam := k.tam.getD 0, will := will,
-                      recvQuota := s.caps.receiveMaximum, maxRecv := s.caps.receiveMaximum,
-                      sendQuota := rmProp, maxSend := rmProp }
+  { conn := conn, id := k.id, ver := k.ver, clean := k.clean, sei := k.sei.getD 0, fsei := k.sei.isSome,
+    recvMaxProp := rmProp, tam := k.tam.getD 0, will := will,
+    recvQuota := s.caps.receiveMaximum, maxRecv := s.caps.receiveMaximum,
+    sendQuota := rmProp, maxSend := rmProp }
+
+def authAllows (s : Server) (id : Str) : Bool :=
+  match s.auth with
+  | .allow => true
+  | .none => false
+  | .deny x => id != x
+
+/-- the checks of `attachClient` before a session is created: `some code` = refused with that
+    CONNACK reason code -/
+def refuseCode (s : Server) (k : Connect) (c : Client) : Option Nat :=
+  if s.info.connected ≥ s.caps.maximumClients then some (if k.ver < 5 then 0x88 else 0x89)
+  else if k.ver < 5 && !k.clean && k.id.isEmpty then some 0x80
+  else if k.ver < s.caps.minimumProtocolVersion then some 0x84
+  else if c.will.flag && c.will.qos > s.caps.maximumQos then some 0x9B
+  else if c.will.flag && c.will.retain && s.caps.retainAvailable == 0 then some 0x9A
+  else if !authAllows s k.id then some 0x86
+  else none
+
+/-- CONNACK session present: a session for the id existed (and was not an MQTT 3 clean session) and
+    Clean Start is 0 -/
+def sessionExisted (s : Server) (id : Str) : Bool :=
+  match assocGet s.clients id with
+  | some e => !((getObj s e).clean && (getObj s e).ver < 5)
+  | none => false
+
+/-- `attachClient` from the point the client is admitted up to the read loop -/
+def admitClient (s : Server) (i conn : Nat) (k : Connect) : Server × List Out :=
+  let s := { s with info := { s.info with connected := s.info.connected + 1 } }
+  let exLive : Option Nat := match assocGet s.clients k.id with
+    | some e => if (getObj s e).stopped then none else some e
+    | none => none
+  -- inheritClientSession
+  let (s, o1, present) : Server × List Out × Bool := match assocGet s.clients k.id with
+    | some e =>
+      let ex := getObj s e
+      let (s, o) := disconnectClient s e 0x8E
+      if k.clean || (ex.clean && ex.ver < 5) then
+        let s := unsubscribeClient s e
+        let s := clearInflights s e
+        (modObj s e (fun x => { x with takenOver := true }), o, false)
+      else
+        let s := modObj s e (fun x => { x with takenOver := true })
+        let ex := getObj s e
+        let rmx := s.caps.receiveMaximum
+        let s := if ex.inflight.length > 0 then
+            let s := modObj s i (fun x =>
+              let sq := if rmx != 0 then x.recvMaxProp else 0
+              { x with inflight := ex.inflight, recvQuota := rmx, maxRecv := rmx, sendQuota := sq, maxSend := sq })
+            { s with info := { s.info with inflight := s.info.inflight + ex.inflight.length } }
+          else s
+        let s := ex.subs.foldl (fun s (fs : Str × Sub) =>
+          let rr := subscribe s.topics k.id fs.2
+          let s := { s with topics := rr.1, info := if rr.2 then { s.info with subs := s.info.subs + 1 } else s.info }
+          modObj s i (fun x => { x with subs := assocSet x.subs fs.2.filter fs.2 })) s
+        let s := unsubscribeClient s e
+        let s := clearInflights s e
+        (s, o, true)
+    | none => (s, [], false)
+  let s := { s with clients := assocSet s.clients k.id i }
+  -- SendConnack
+  let cl := getObj s i
+  let (s, seiOut) := if cl.sei > s.caps.maxSessionExpiry then
+      (modObj s i (fun x => { x with sei := s.caps.maxSessionExpiry, fsei := true }), some s.caps.maxSessionExpiry)
+    else (s, none)
+  let o2 := [Out.wrote conn (mkConnack s cl present 0 seiOut)]
+  -- the taken-over connection's own handler leaves its read loop (DisconnectClient closed its
+  -- connection) and runs the tail of attachClient while this handler is blocked writing the
+  -- CONNACK: the schedule the sequential harness (GOMAXPROCS=1) produces; other interleavings
+  -- are M4's subject
+  let (s, o4) := match exLive with
+    | some e => detach s e true
+    | none => (s, [])
+  let s := { s with willDelayed := assocDel s.willDelayed k.id }
+  -- ResendInflightMessages
+  let (s, o3) := if present then
+      (getObj s i).inflight.foldl (fun (acc : Server × List Out) (m : Msg) =>
+        let m' := if m.type == 3 then { m with dup := true } else m
+        let o := writeMsg acc.1 i m'
+        let s' := if m.type == 4 || m.type == 7 then
+            let (c', ok) := flDelete (getObj acc.1 i) m.id
+            let s'' := setObj acc.1 i c'
+            if ok then { s'' with info := { s''.info with inflight := s''.info.inflight - 1 } } else s''
+          else acc.1
+        (s', acc.2 ++ o)) (s, [])
+    else (s, [])
+  (s, o1 ++ o2 ++ o4 ++ o3)
+
+
+/-- `attachClient` up to the read loop -/
+def connect (s : Server) (conn : Nat) (k : Connect) : Server × List Out :=
+  let c := parseConnect s conn k
   let i := s.objs.length
   let s := { s with objs := s.objs ++ [c], connOf := s.connOf ++ [(conn, i)] }
-  let refuse (s : Server) (code : Nat) : Server × List Out :=
-    let o := [Out.wrote conn (renderConnack s c false code none)]
+  match refuseCode s k c with
+  | some code =>
+    let o := [Out.wrote conn (mkConnack s c false code none)]
     let (s, o2) := stopClient s i
     (s, o ++ o2)
-  if s.info.connected ≥ s.caps.maximumClients then refuse s (if k.ver < 5 then 0x88 else 0x89)
-  else if k.ver < 5 && !k.clean && k.id.isEmpty then refuse s 0x80
-  else if k.ver < s.caps.minimumProtocolVersion then refuse s 0x84
-  else if will.flag && will.qos > s.caps.maximumQos then refuse s 0x9B
-  else if will.flag && will.retain && s.caps.retainAvailable == 0 then refuse s 0x9A
-  else
-    let authed := match s.auth with
-      | .allow => true
-      | .none => false
-      | .deny id => k.id != id
-    if !authed then refuse s 0x86
-    else
-      let s := { s with info := { s.info with connected := s.info.connected + 1 } }
-      let exLive : Option Nat := match assocGet s.clients k.id with
-        | some e => if (getObj s e).stopped then none else some e
-        | none => none
-      -- inheritClientSession
-      let (s, o1, present) : Server × List Out × Bool := match assocGet s.clients k.id with
-        | some e =>
-          let ex := getObj s e
-          let (s, o) := disconnectClient s e 0x8E
-          if k.clean || (ex.clean && ex.ver < 5) then
-            let s := unsubscribeClient s e
-            let s := clearInflights s e
-            (modObj s e (fun x => { x with takenOver := true }), o, false)
-          else
-            let s := modObj s e (fun x => { x with takenOver := true })
-            let ex := getObj s e
-            let rmx := s.caps.receiveMaximum
-            let s := if ex.inflight.length > 0 then
-                modObj s i (fun x =>
-                  let sq := if rmx != 0 then x.recvMaxProp else 0
-                  { x with inflight := ex.inflight, recvQuota := rmx, maxRecv := rmx, sendQuota := sq, maxSend := sq })
-              else s
-            let s := ex.subs.foldl (fun s (fs : Str × Sub) =>
-              let rr := subscribe s.topics k.id fs.2
-              let s := { s with topics := rr.1, info := if rr.2 then { s.info with subs := s.info.subs + 1 } else s.info }
-              modObj s i (fun x => { x with subs := assocSet x.subs fs.2.filter fs.2 })) s
-            let s := unsubscribeClient s e
-            let s := clearInflights s e
-            (s, o, true)
-        | none => (s, [], false)
-      let s := { s with clients := assocSet s.clients k.id i }
-      -- SendConnack
-      let cl := getObj s i
-      let (s, seiOut) := if cl.sei > s.caps.maxSessionExpiry then
-          (modObj s i (fun x => { x with sei := s.caps.maxSessionExpiry, fsei := true }), some s.caps.maxSessionExpiry)
-        else (s, none)
-      let o2 := [Out.wrote conn (renderConnack s cl present 0 seiOut)]
-      -- the taken-over connection's own handler leaves its read loop (DisconnectClient closed its
-      -- connection) and runs the tail of attachClient while this handler is blocked writing the
-      -- CONNACK: the schedule the sequential harness (GOMAXPROCS=1) produces; other interleavings
-      -- are M4's subject
-      let (s, o4) := match exLive with
-        | some e => detach s e true
-        | none => (s, [])
-      let s := { s with willDelayed := assocDel s.willDelayed k.id }
-      -- ResendInflightMessages
-      let (s, o3) := if present then
-          (getObj s i).inflight.foldl (fun (acc : Server × List Out) (m : Msg) =>
-            let m' := if m.type == 3 then { m with dup := true } else m
-            let o := writeMsg acc.1 i m'
-            let s' := if m.type == 4 || m.type == 7 then
-                let (c', ok) := flDelete (getObj acc.1 i) m.id
-                let s'' := setObj acc.1 i c'
-                if ok then { s'' with info := { s''.info with inflight := s''.info.inflight - 1 } } else s''
-              else acc.1
-            (s', acc.2 ++ o)) (s, [])
-        else (s, [])
-      (s, o1 ++ o2 ++ o4 ++ o3)
+  | none => admitClient s i conn k
 
 /-! ### housekeeping and the inline API -/
 
 def tickClients (s : Server) (dt : Int) : Server × List Out :=
   s.clients.foldl (fun (acc : Server × List Out) (e : Str × Nat) =>
     let c := getObj acc.1 e.2
-    if !c.stopped then acc else
-    let expire : Nat := if c.ver == 5 && c.fsei then c.sei else acc.1.caps.maxSessionExpiry
-    if NOW + expire < dt then
-      ({ acc.1 with clients := assocDel acc.1.clients e.1 }, acc.2 ++ [.event s!"expired({hexStr c.id})"])
+    if sessionDue acc.1.caps c dt then
+      let s := clearInflights acc.1 e.2
+      let s := unsubscribeClient s e.2
+      ({ s with clients := assocDel s.clients e.1 }, acc.2 ++ [.event s!"expired({hexStr c.id})"])
     else acc) (s, [])
 
 def tickRetained (s : Server) (now : Int) : Server :=
+  let s := tickRetainedLoop s now
+  { s with info := { s.info with retained := s.rmsgs.length } }
+where tickRetainedLoop (s : Server) (now : Int) : Server :=
   s.rmsgs.foldl (fun s (e : Str × Msg) =>
     let pk := e.2
     let expired := pk.ver == 5 && pk.expiry > 0 && pk.expiry < now
@@ -867,7 +936,7 @@ def step (s : Server) : Op → Server × List Out
     | some i =>
       if (getObj s i).isOpen then
         let (s, o2) := recvOn s conn .pingreq false
-        (s, o ++ o2.filter (fun x => match x with | .wrote _ "PINGRESP" => false | _ => true))
+        (s, o ++ o2.filter (fun x => match x with | .wrote _ .pingresp => false | _ => true))
       else (s, o)
     | none => (s, o)
   | .recv conn pk => recvOn s conn pk true
